@@ -123,6 +123,13 @@ def judge(ctx, case):
                       "callback log differs: missing %r extra %r wrong row ids %r (expected %r got %r)"
                       % (missing[:3], extra[:3], wrong[:3], exp.get(marg), seen.get(marg)), case)
         return
+    # walking the same cube object again presents the same combinations (no state left behind)
+    if case.get("via") == "interactions" and n % 2 == 1:
+        again = {c: r.tolist() for c, r in cube.interactions()}
+        ctx.count("walk:repeated")
+        if again != seen:
+            ctx.violation("second-walk-differs:" + feat, "a second walk of the same cube presents different combinations", case)
+            return
     for other in logs[1:]:
         if len(other) != len(log) or any(a[0] != b[0] or a[1].tolist() != b[1].tolist() for a, b in zip(log, other)):
             ctx.violation("callbacks-disagree:" + feat, "two callbacks passed together saw different sequences", case)
